@@ -234,10 +234,13 @@ def concretize(case, rnd, n, harness_exe, thorough, session=None):
     if not session:
         steps.append({"op": "connect", "conn": cid, "attr": attr})
     host_status = rnd.choice([200, 200, 201, 404, 500])
+    host_fault = "reset" if (not session and case["forwarded"] and rnd.random() < 0.12) else "none"
     req = {"op": "request", "conn": cid, "id": rid, "method": method, "target": target, "headers": headers,
            "body": {"seed": n, "len": blen}, "framing": framing,
            "resp": {"status": host_status, "headers": [["content-type", "text/plain"], ["x-host-says", rid]],
                     "body": {"text": "host-" + rid}}}
+    if host_fault == "reset":
+        req["resp"]["framing"] = "reset"
     if framing == "chunked":
         req["chunks"] = [rnd.randint(1, max(1, blen // 3 + 1)) for _ in range(rnd.randint(0, 3))] if blen < (1 << 20) else [1 << 20] * 200
     if declared is not None:
@@ -253,7 +256,7 @@ def concretize(case, rnd, n, harness_exe, thorough, session=None):
         "keyPresent": case["key"] != "nokey", "method": method, "target": target, "trav": ".." in target.partition("?")[0],
         "prov": target == "/provision", "exempt": exempt, "bodyLen": body_len_seen, "sentLen": blen, "framing": framing,
         "spoof": spoof, "hostStatus": host_status, "skip": skip, "headers": headers, "attr": attr,
-        "session": bool(session),
+        "session": bool(session), "hostFault": host_fault,
     }
     return steps, meta
 
@@ -338,7 +341,8 @@ def observe(events, metas):
                "caller": {k: m["caller"][k] for k in ("user", "groups", "proc", "exe")},
                "url": url_to_tla(m["target"]), "fault": m["fault"], "keyPresent": m["keyPresent"], "trav": m["trav"],
                "prov": m["prov"], "exempt": m["exempt"], "bodyLen": m["bodyLen"], "framing": m["framing"],
-               "status": status, "relayed": relayed, "strayBytes": stray, "hostStatus": m["hostStatus"]}
+               "status": status, "relayed": relayed, "strayBytes": stray, "hostStatus": m["hostStatus"],
+               "hostFault": m.get("hostFault", "none")}
         if relayed:
             h = hr[0]
             cz = census(h["headers"])
@@ -377,7 +381,7 @@ def observe(events, metas):
         mism = []
         if relayed != cs["forwarded"]:
             mism.append("forwarded spec=%s impl=%s" % (cs["forwarded"], relayed))
-        if status != exp_status:
+        if status != exp_status and m.get("hostFault", "none") == "none":
             mism.append("status spec=%s impl=%s" % (exp_status, status))
         if row["failedDelta"] != cs["failed"]:
             mism.append("failedDelta spec=%s impl=%s" % (cs["failed"], row["failedDelta"]))
@@ -482,6 +486,8 @@ def pipeline(c):
             m["conn"] = conn
             ssteps += st
             smetas.append(m)
+            if not k["forwarded"] and (m["sentLen"] > 0 or m["framing"] != "none"):
+                break       # answered without reading the body: hyper closes such a connection; the session ends here
         if not smetas:
             continue
         ssteps.append({"op": "close", "conn": conn})
